@@ -21,6 +21,11 @@ func init() {
 		Decides:    "that macro expansion cannot lose part of a quoted tree: every node's splice carries every field over and every node's traverse visits every field that can hold a sub-tree; no node method is an unconditional self call.",
 		NotCovered: "capture-freedom under colliding names (scope handling of macro boundaries in checker and compiler); that expansion results are wrapped in macro boundary nodes.",
 	}
+	props["C33"] = &PropSpec{
+		Rules:      []string{"path/abort-before-backedge", "cover/flagprop"},
+		Decides:    "that every user-level loop the compiler emits has a cancellation point on its back edge when abort checks are requested (each emitLoop site is preceded by the CHECK_ABORT guard; two bounded internal loops are reasoned exceptions), and that the request reaches every nested compiler (methods, closures, defers, class/module/mixin/interface/singleton bodies inherit additionalAbortChecks and the diagnostic list from their parent).",
+		NotCovered: "promptness (timing); native methods that block without watching the thread's abort context (sleep, Mutex#lock, WaitGroup#wait, channel iteration): candidates located by reading, not armed.",
+	}
 	props["C12"] = &PropSpec{
 		Rules:      []string{"path/savedrestore-checker"},
 		Decides:    "that checker and compiler context (mode, flags, catch scopes, return/throw type, ...) which a function saves, changes and restores is restored on every exit path, and that a function bracketing several fields does not reset a sibling field to a constant instead; a leak is exactly how an unused nested construct (a closure literal, a failed compatibility check) changes the verdict on the code that follows it.",
